@@ -530,6 +530,7 @@ package goat
 //@   ensures[C20.begin_once_end_on_failure] bound("beginTime") && result.1 != nil ==> ncalls("HandleRPC:*google.golang.org/grpc/stats.End") == old(ncalls("HandleRPC:*google.golang.org/grpc/stats.End")) + len(cc.statsHandlers)
 //@   ensures[C20.begin_once_end_on_failure] result.1 == nil ==> ncalls("HandleRPC:*google.golang.org/grpc/stats.End") == old(ncalls("HandleRPC:*google.golang.org/grpc/stats.End"))
 //@   ensures[C06.open_once] ncalls("(types.RpcReadWriter).Write") <= old(ncalls("(types.RpcReadWriter).Write")) + 1
+//@   atcall[C03.single_response_streams_are_marked C02.single_response_streams_are_marked] client.newClientStream : arg9 == !desc.ServerStreams
 // an open that reached the peer is handed out as a stream (only a stream can cancel it: the read loop's
 // teardown writes the reset); the failed-open exit is for opens that were never written
 //@   ensures[C07.an_opened_stream_is_handed_out C14.an_opened_stream_is_handed_out C06.an_opened_stream_is_handed_out] ncalls("(types.RpcReadWriter).Write") == old(ncalls("(types.RpcReadWriter).Write")) + 1 && lastret("(types.RpcReadWriter).Write") == nil
